@@ -1,7 +1,340 @@
 import Mustache.Basic.LineIO
+import Mustache.Model.World
+/-! `driver world`: runs the world model on an op file and prints the observation lines of
+    `harness/world_driver.cpp` (same grammar, same canonical format). -/
 namespace Mustache.Driver.World
-/-- stub, replaced when the model lands -/
+open Mustache Mustache.Model
+
+/-- the harness's component catalogue: A=0 … H=7 -/
+def catalogue (c : CompId) : CompInfo :=
+  match c with
+  | 0 => ⟨false, none, none, false, false⟩            -- A trivial
+  | 1 => ⟨true, some 1001, none, false, true⟩         -- B heap-owning, counted
+  | 2 => ⟨true, some 1002, none, false, false⟩        -- C over-aligned
+  | 3 => ⟨false, none, some 0, false, false⟩          -- D empty
+  | 4 => ⟨false, none, none, false, false⟩            -- E large trivial
+  | 5 => ⟨true, some 1005, none, true, false⟩         -- F callbacks
+  | 6 => ⟨true, some 1006, none, false, true⟩         -- G heap-owning, counted
+  | 7 => ⟨true, some 1007, none, false, false⟩        -- H
+  | _ => ⟨false, none, none, false, false⟩
+
+def letters : List Char := ['A', 'B', 'C', 'D', 'E', 'F', 'G', 'H']
+def compOf (ch : Char) : Option CompId :=
+  let i := letters.idxOf ch
+  if i < letters.length then some i else none
+def letterOf (c : CompId) : String := String.singleton (letters.getD c '?')
+def sharedOf (ch : Char) : Option Nat := if ch = 'S' then some 0 else if ch = 'T' then some 1 else none
+def sharedLetter (s : Nat) : String := if s = 0 then "S" else "T"
+
+def parseMask (s : String) : Option Mask :=
+  if s = "-" then some [] else
+  (s.toList.filter (· ≠ ',')).foldlM (fun m ch => (compOf ch).map (Mask.insert m ·)) []
+
+def showMask (m : Mask) : String :=
+  if m.isEmpty then "-" else ",".intercalate (m.map letterOf)
+
+structure St where
+  w : WM := {}
+  issued : Array Handle := #[]
+  ordOf : List (Nat × Nat) := []             -- packed value ↦ latest ordinal
+  seenS : List Nat := []                      -- instance ids in order of first appearance (class numbers), type S
+  seenT : List Nat := []
+  freshVals : List (Nat × Nat) := []          -- unpooled instances ↦ value
+
+def St.hname (s : St) (h : Handle) : String :=
+  match s.ordOf.find? (·.1 == h.value) with
+  | some (_, o) => toString o
+  | none => "raw:" ++ String.ofList (Nat.toDigits 16 h.value)
+
+def St.issue (s : St) (h : Handle) : St × String :=
+  let ord := s.issued.size
+  ({ s with issued := s.issued.push h, ordOf := (h.value, ord) :: s.ordOf },
+   s!"h {ord} id={h.id} ver={h.ver} w={h.world}")
+
+def hexVal (s : String) : Option Nat :=
+  s.toList.foldlM (fun n ch =>
+    if ch.isDigit then some (n * 16 + (ch.toNat - '0'.toNat))
+    else if 'a' ≤ ch ∧ ch ≤ 'f' then some (n * 16 + 10 + (ch.toNat - 'a'.toNat))
+    else if 'A' ≤ ch ∧ ch ≤ 'F' then some (n * 16 + 10 + (ch.toNat - 'A'.toNat))
+    else none) 0
+
+def St.entity (s : St) (tok : String) : Option Handle :=
+  if tok = "null" then some Handle.null
+  else if tok.startsWith "raw:" then (hexVal (tok.drop 4).toString).map Handle.ofValue
+  else match tok.toNat? with
+    | some k => s.issued[k]?
+    | none => none
+
+def showCbs (s : St) (cbs : List Cb) : String :=
+  String.join (cbs.map (fun cb => match cb with
+    | .assign c e => s!" cb=assign:{letterOf c}:{s.hname e}"
+    | .remove c e => s!" cb=remove:{letterOf c}:{s.hname e}"))
+
+def showVal (v : Val) : String :=
+  match v with | some t => toString t | none => "?"
+
+def instValue (s : St) (sid inst : Nat) : Nat :=
+  match s.w.pool.find? (·.1 == sid) with
+  | some (_, l) =>
+    match l.find? (·.2 == inst) with
+    | some (v, _) => v
+    | none => (match s.freshVals.find? (·.1 == inst) with | some (_, v) => v | none => 0)
+  | none => (match s.freshVals.find? (·.1 == inst) with | some (_, v) => v | none => 0)
+
+def St.classOf (s : St) (sid inst : Nat) : St × Nat :=
+  let seen := if sid = 0 then s.seenS else s.seenT
+  let i := seen.idxOf inst
+  if i < seen.length then (s, i)
+  else
+    let seen' := seen ++ [inst]
+    (if sid = 0 then { s with seenS := seen' } else { s with seenT := seen' }, seen.length)
+
+def dump (s0 : St) : St × List String := Id.run do
+  let mut s := s0
+  let mut out : List String := ["dump"]
+  let w := s.w
+  for ord in [0:s.issued.size] do
+    let e := s.issued[ord]!
+    if !w.isValid e then
+      out := out ++ [s!"E {ord} valid=0"]
+    else
+      match (w.locOf e).arch with
+      | none => out := out ++ [s!"E {ord} valid=1 arch=- pos=- comps=- shared=-"]
+      | some ai =>
+        let a := w.arch ai
+        let row := a.rows.getD (w.locOf e).idx default
+        let comps := (a.mask.zip row.vals).map (fun p => s!"{letterOf p.1}:{showVal p.2}")
+        let compsS := if comps.isEmpty then "-" else ",".intercalate comps
+        let mut sh : List String := []
+        for sid in [0, 1] do
+          match a.shared.get? sid with
+          | some inst =>
+            let (s', k) := s.classOf sid inst
+            s := s'
+            sh := sh ++ [s!"{sharedLetter sid}:{k}/{instValue s sid inst}"]
+          | none =>
+            if a.shared.has sid then sh := sh ++ [s!"{sharedLetter sid}:null"]
+        let shS := if sh.isEmpty then "-" else ",".intercalate sh
+        out := out ++ [s!"E {ord} valid=1 arch={ai} pos={(w.locOf e).idx} comps={compsS} shared={shS}"]
+  for ai in [0:w.archs.length] do
+    let a := w.arch ai
+    let mut sh : List String := []
+    for sid in [0, 1] do
+      if a.shared.has sid then
+        match a.shared.get? sid with
+        | some inst =>
+          let (s', k) := s.classOf sid inst
+          s := s'
+          sh := sh ++ [s!"{sharedLetter sid}:{k}"]
+        | none => sh := sh ++ [s!"{sharedLetter sid}:null"]
+    let shS := if sh.isEmpty then "-" else ",".intercalate sh
+    let ents := a.rows.map (fun r => s.hname r.ent)
+    let entsS := if ents.isEmpty then "-" else ",".intercalate ents
+    out := out ++ [s!"A {ai} mask={showMask a.mask} shared={shS} size={a.rows.length} ents={entsS}"]
+  let slots := (w.slots.zipIdx).map (fun p => s!"{p.2}:{p.1.idf}:{p.1.ver}")
+  let slotsS := if slots.isEmpty then "-" else ",".intercalate slots
+  let marked := w.marked.map s.hname
+  let markedS := if marked.isEmpty then "-" else ",".intercalate marked
+  out := out ++ [s!"T slots={slotsS} next={w.next} empty={w.empty} lock={w.lockDepth} marked={markedS}"]
+  out := out ++ [s!"L B={w.liveCount 1} G={w.liveCount 6}", "end"]
+  return (s, out)
+
+def resStr : Res → String
+  | .ok => "ok" | .selfMove => "err:self-move" | .lockedUpdate => "err:locked-update"
+
+/-- parse builder arguments `+C=tok`, `+C`, `-C` -/
+def parseBuild (ws : List String) : Option (List (CompId × Option Nat) × Mask) :=
+  ws.foldlM (fun (acc : List (CompId × Option Nat) × Mask) tok =>
+    match tok.toList with
+    | '+' :: ch :: rest =>
+      (compOf ch).bind (fun c =>
+        match rest with
+        | [] => some (acc.1 ++ [(c, none)], acc.2)
+        | '=' :: ds => (String.ofList ds).toNat?.map (fun t => (acc.1 ++ [(c, some t)], acc.2))
+        | _ => none)
+    | ['-', ch] => (compOf ch).map (fun c => (acc.1, Mask.insert acc.2 c))
+    | _ => none) ([], [])
+
+/-- executes one op (thread `t`), returns the new state and the observation line (without side notes) -/
+def exec (s : St) (t : Nat) (ws : List String) : St × String :=
+  let info := catalogue
+  let w := s.w
+  match ws with
+  | "create" :: rest =>
+    let maskS := rest.headD "-"
+    match parseMask maskS with
+    | none => (s, "bad-op")
+    | some mask =>
+      -- shared types named after the mask get a fresh default-valued instance each (makeSharedInfo)
+      let (w, sh, fresh) := (rest.drop 1).foldl (fun (acc : WM × Shared × List (Nat × Nat)) tok =>
+        match (tok.toList.head?).bind sharedOf with
+        | some sid =>
+          let (w', inst) := acc.1.freshInst
+          (w', acc.2.1.add sid inst, (inst, 0) :: acc.2.2)
+        | none => acc) (w, Shared.null, [])
+      let (w, h, cbs) := w.create info t mask sh
+      let (s', line) := { s with w := w, freshVals := fresh ++ s.freshVals }.issue h
+      (s', line ++ showCbs s' cbs)
+  | ["assign", e, c, tok] =>
+    match s.entity e, (c.toList.head?).bind compOf, tok.toNat? with
+    | some h, some ci, some v =>
+      let (w, r, cbs) := w.assign info t h ci (some v)
+      ({ s with w := w }, resStr r ++ showCbs s cbs)
+    | _, _, _ => (s, "bad-op")
+  | ["assign0", e, c] =>
+    match s.entity e, (c.toList.head?).bind compOf with
+    | some h, some ci =>
+      let (w, r, cbs) := w.assign info t h ci none
+      ({ s with w := w }, resStr r ++ showCbs s cbs)
+    | _, _ => (s, "bad-op")
+  | ["remove", e, c] =>
+    match s.entity e, (c.toList.head?).bind compOf with
+    | some h, some ci =>
+      let (w, cbs) := w.removeComp info t h ci
+      ({ s with w := w }, "ok" ++ showCbs s cbs)
+    | _, _ => (s, "bad-op")
+  | "build" :: e :: rest =>
+    match parseBuild rest with
+    | none => (s, "bad-op")
+    | some (adds, rems) =>
+      if adds.length > 2 || rems.length > 2 then (s, "bad-op") else
+      if e = "new" then
+        if w.isLocked then
+          -- createWithOutInit -> createLocked(null mask), then one assign command per argument
+          let (w, h) := w.createLocked t [] Shared.null
+          let (w, cbs) := adds.foldl (fun (acc : WM × List Cb) p =>
+            let (w', _, c) := acc.1.assign info t h p.1 (match p.2 with | some v => some v | none => none)
+            (w', acc.2 ++ c)) (w, [])
+          let (s', line) := { s with w := w }.issue h
+          (s', line ++ showCbs s' cbs)
+        else
+          let (w, h, cbs) := w.buildNewU info adds
+          let (s', line) := { s with w := w }.issue h
+          (s', line ++ showCbs s' cbs)
+      else
+        match s.entity e with
+        | none => (s, "bad-op")
+        | some h =>
+          if w.isLocked then
+            let (w, cbs) := adds.foldl (fun (acc : WM × List Cb) p =>
+              let (w', _, c) := acc.1.assign info t h p.1 p.2
+              (w', acc.2 ++ c)) (w, [])
+            let w := rems.foldl (fun w c => (w.removeComp info t h c).1) w
+            ({ s with w := w }, "ok" ++ showCbs s cbs)
+          else
+            let (w, r, cbs) := w.buildUpdateU info h adds rems
+            ({ s with w := w }, resStr r ++ showCbs s cbs)
+  | ["destroy", e] =>
+    match s.entity e with
+    | some h => ({ s with w := w.destroy t h }, "ok")
+    | none => (s, "bad-op")
+  | ["destroynow", e] =>
+    match s.entity e with
+    | some h => let (w, cbs) := w.destroyNow info t h; ({ s with w := w }, "ok" ++ showCbs s cbs)
+    | none => (s, "bad-op")
+  | ["clone", e] =>
+    match s.entity e with
+    | some h =>
+      match w.clone h with
+      | (w, some d) => { s with w := w }.issue d
+      | (w, none) => ({ s with w := w }, "null")
+    | none => (s, "bad-op")
+  | ["sassign", e, sh, v] =>
+    match s.entity e, (sh.toList.head?).bind sharedOf, v.toNat? with
+    | some h, some sid, some val =>
+      let (w, cbs) := w.sassign info h sid val
+      ({ s with w := w }, "ok" ++ showCbs s cbs)
+    | _, _, _ => (s, "bad-op")
+  | ["sremove", e, sh] =>
+    match s.entity e, (sh.toList.head?).bind sharedOf with
+    | some h, some sid =>
+      let (w, r, cbs) := w.sremove info h sid
+      ({ s with w := w }, (if r then "ret=1" else "ret=0") ++ showCbs s cbs)
+    | _, _ => (s, "bad-op")
+  | ["cleararch", m] =>
+    match parseMask m with
+    | none => (s, "bad-op")
+    | some mask =>
+      let i := w.archs.findIdx (fun a => a.mask == mask)
+      if i < w.archs.length then ({ s with w := w.clearArch i }, "ok") else (s, "none")
+  | ["update"] =>
+    let (w, r, cbs) := w.update info
+    ({ s with w := w }, resStr r ++ showCbs s cbs)
+  | ["lock"] => ({ s with w := w.lock }, "ok")
+  | ["unlock"] =>
+    let (w, r, cbs) := w.unlock info
+    ({ s with w := w }, (if r then "ret=1" else "ret=0") ++ showCbs s cbs)
+  | ["dep", m, ds] =>
+    match (m.toList.head?).bind compOf, parseMask ds with
+    | some c, some extra => ({ s with w := { w with deps := addDependency w.deps c extra } }, "ok")
+    | _, _ => (s, "bad-op")
+  | ["valid", e] =>
+    match s.entity e with
+    | some h => (s, if w.isValid h then "valid=1" else "valid=0")
+    | none => (s, "bad-op")
+  | ["has", e, c] =>
+    match s.entity e with
+    | some h =>
+      match (c.toList.head?).bind compOf, (c.toList.head?).bind sharedOf with
+      | some ci, _ => (s, if w.hasComp h ci then "has=1" else "has=0")
+      | none, some sid => (s, if w.hasShared h sid then "has=1" else "has=0")
+      | none, none => (s, "has=0")
+    | none => (s, "bad-op")
+  | [g, e, c] =>
+    if g = "get" || g = "getmut" then
+      match s.entity e, (c.toList.head?).bind compOf with
+      | some h, some ci =>
+        match w.getComp h ci with
+        | none => (s, "val=null")
+        | some v => (s, "val=" ++ showVal v)
+      | _, _ => (s, "bad-op")
+    else if g = "markdirty" then
+      match s.entity e with
+      | some _ => (s, "ok")
+      | none => (s, "bad-op")
+    else (s, "bad-op")
+  | ["archof", e] =>
+    match s.entity e with
+    | some h => (s, match w.archOf h with | some a => s!"arch={a}" | none => "arch=null")
+    | none => (s, "bad-op")
+  | ["marked", e] =>
+    match s.entity e with
+    | some h => (s, if w.marked.contains h then "marked=1" else "marked=0")
+    | none => (s, "bad-op")
+  | _ => (s, "bad-op")
+
+def step (s : St) (line : String) : St × List String :=
+  match words line with
+  | ["threads", n] =>
+    match n.toNat? with
+    | some k => ({ s with w := { s.w with nthreads := k + 1 } }, ["ok"])
+    | none => (s, ["bad-op"])
+  | ["worldid", n] =>
+    match n.toNat? with
+    | some k => ({ s with w := { s.w with worldId := k } }, ["ok"])
+    | none => (s, ["bad-op"])
+  | ["defaultctx"] => (s, ["ok"])
+  | ["storagecap", _] => (s, ["ok"])
+  | ["dump"] => dump s
+  | ["teardown"] => (s, ["teardown live B=0 G=0"])
+  | [] => (s, [])
+  | w0 :: rest =>
+    let tid : Option Nat :=
+      match w0.toList with
+      | 't' :: ds => if ds.isEmpty then none else (String.ofList ds).toNat?
+      | _ => none
+    match tid with
+    | some t =>
+      if rest.isEmpty then (s, ["bad-op"])
+      else if t ≠ 0 && (!(s.w.isLocked) || t ≥ s.w.nthreads) then (s, ["bad-op"])
+      else let (s', l) := exec s t rest; (s', [l])
+    | none => let (s', l) := exec s 0 (w0 :: rest); (s', [l])
+
 def main (_args : List String) : IO UInt32 := do
-  IO.eprintln "driver: model World not built yet"
-  return 2
+  let init : St := { w := { nthreads := 3 } }       -- default `threads 2`
+  let _ ← foldStdin (fun s l => do
+    let (s', outs) := step s l
+    for o in outs do IO.println o
+    pure s') init
+  return 0
 end Mustache.Driver.World
